@@ -1,5 +1,7 @@
 #![allow(clippy::all)]
 #![allow(unused)]
 pub mod spec;
+pub mod vz;
 pub mod c08_kernels;
+pub mod c08_vec;
 pub mod generated;
